@@ -3,7 +3,7 @@
    to the layer above, the parser state (cipher counters) and the residual buffer. *)
 From Coq Require Import NArith List Bool Arith Lia.
 From PV Require Import Common.Cases Common.Framing Common.Endian.
-From PV Require Import C02.Model C02.Spec C02.ProofsBase C02.ProofsLaws C02.ProofsHttp C02.ProofsLayer C02.ProofsSpec.
+From PV Require Import C02.Model C02.Spec C02.ProofsBase C02.ProofsLaws C02.ProofsHttp C02.ProofsLayer C02.ProofsSpec C02.ProofsRoundtrip.
 Import ListNotations.
 Local Open Scope N_scope.
 
@@ -217,6 +217,47 @@ Proof.
 Qed.
 Print Assumptions C02_datastream_valid_stream.
 
+(* ---- HTTP head round trip (partial: header names/values without CR, names without ':', the
+   Content-Length header - if any - a plain decimal equal to the body length, no body without it):
+   what the formatter wrote is what the parser reads back, whatever follows. *)
+Theorem C02_http_roundtrip_partial : forall utf8_ok first hdrs body rest,
+  clean first ->
+  Forall (fun kv => clean (fst kv) /\ clean (snd kv)) hdrs ->
+  Forall (fun kv => ~ In 58 (fst kv)) hdrs ->
+  utf8_ok (first ++ concat (map (fun kv => CRLF ++ line_of kv) hdrs)) = true ->
+  cl_of (cid_of hdrs) = Some (len body) ->
+  parse_http_message utf8_ok (format_head first hdrs ++ body ++ rest) = HMsg first (cid_of hdrs) body rest.
+Proof. exact http_roundtrip. Qed.
+Print Assumptions C02_http_roundtrip_partial.
+
+(* a well-formed HTTP message as a frame of the client connection *)
+Definition http_enc (m : http_msg) : bytes := format_head (fst (fst m)) (snd (fst m)) ++ snd m.
+Definition http_wf (utf8_ok first_ok : bytes -> bool) (m : http_msg) : Prop :=
+  let '(first, hdrs, body) := m in
+  clean first /\ Forall (fun kv => clean (fst kv) /\ clean (snd kv)) hdrs /\ Forall (fun kv => ~ In 58 (fst kv)) hdrs /\
+  utf8_ok (first ++ concat (map (fun kv => CRLF ++ line_of kv) hdrs)) = true /\
+  cl_of (cid_of hdrs) = Some (len body) /\ first_ok first = true.
+Definition http_delivered (m : http_msg) : http_msg := (fst (fst m), cid_of (snd (fst m)), snd m).
+
+Theorem C02_http_client_valid_stream : forall utf8_ok first_ok msgs chunks,
+  Forall (http_wf utf8_ok first_ok) msgs ->
+  concat chunks = stream _ http_enc msgs ->
+  feeds (httpc_p1 utf8_ok first_ok) tt [] chunks = Out (map http_delivered msgs) tt [].
+Proof.
+  intros u f msgs chunks W E.
+  assert (ONE : forall (s : unit) (m : http_msg) (rest : bytes), http_wf u f m ->
+                httpc_p1 u f s (http_enc m ++ rest) = Frame (fst (http_delivered m, tt)) (snd (http_delivered m, tt)) rest).
+  { intros s [[first hdrs] body] rest (H1 & H2 & H3 & H4 & H5 & H6). unfold httpc_p1, http_enc. cbn [fst snd].
+    rewrite <- app_assoc, (http_roundtrip u first hdrs body rest H1 H2 H3 H4 H5), H6. reflexivity. }
+  rewrite (valid_stream_any_split _ _ _ (httpc_p1 u f) http_enc (fun _ m => (http_delivered m, tt)) (fun _ m => http_wf u f m)
+           (httpc_stable u f) (httpc_progress u f) (httpc_failpfx u f) ONE msgs tt chunks); [| |exact E].
+  - f_equal.
+    + clear. induction msgs; cbn; congruence.
+    + clear. induction msgs; cbn; auto.
+  - clear E ONE. induction W; cbn; auto.
+Qed.
+Print Assumptions C02_http_client_valid_stream.
+
 (* ---- termination: the `while buffer` loops never run out of the fuel |buffer| *)
 Theorem C02_loops_terminate :
   (forall dec pb_ok s buf, run (mrp_p1 dec pb_ok) s buf <> OutOfFuel) /\
@@ -262,3 +303,23 @@ Example C02_ex_hap_layered :
   /\ lfeeds _ _ _ (hap_p1 dec) (ds_p1 (fun _ => true)) true 0 [] tt [] (cut_at 0 [1; 30; 45]%nat stream) =
     LOut [{| ds_type := repeat 1 12; ds_cmd := repeat 2 4; ds_seqno := 9; ds_pad := 0; ds_payload := [5; 6] |}] 2 [] tt [].
 Proof. split; vm_compute; reflexivity. Qed.
+
+Example C02_ex_http_roundtrip :
+  let first := [72;84;84;80;47;49;46;49;32;50;48;48;32;79;75] in           (* HTTP/1.1 200 OK *)
+  let hdrs := [([67;83;101;113], [49]); (CONTENT_LENGTH, [52])] in         (* CSeq: 1, Content-Length: 4 *)
+  http_wf (fun _ => true) (fun _ => true) (first, hdrs, [13;10;13;10]) /\
+  feeds (httpc_p1 (fun _ => true) (fun _ => true)) tt []
+        (cut_at 0 [3; 16; 17; 40; 41]%nat (http_enc (first, hdrs, [13;10;13;10]) ++ http_enc (first, [], [])))
+  = Out [(first, hdrs, [13;10;13;10]); (first, [], [])] tt [].
+Proof.
+  split.
+  - unfold http_wf, clean. cbn.
+    repeat match goal with
+           | |- _ /\ _ => split
+           | |- Forall _ [] => apply Forall_nil
+           | |- Forall _ (_ :: _) => apply Forall_cons
+           | |- ~ _ => cbn; intuition discriminate
+           | |- _ = _ => reflexivity
+           end.
+  - vm_compute. reflexivity.
+Qed.
